@@ -176,11 +176,16 @@ class ExprMixin:
                 todo.extend([e.arg(1), e.arg(2)])
         st.unescaped = [o for o in st.unescaped if o.get_id() not in ids]
 
-    def keep_unescaped(self, st, old):
+    def keep_unescaped(self, st, old, contents=True):
+        """Objects allocated on this path that were never stored into the heap nor passed to a call cannot be
+        reached by unknown code: their contents are unchanged and nothing in the new heap refers to them."""
         for o in st.unescaped:
-            for f in ("$llen", "$litem", "$smem", "$dhas", "$dget", "$olen", "$okey", "$oval"):
-                if f in old.arr:
-                    st.assume(st.heap.sel(f, o) == old.sel(f, o))
+            if contents:
+                for f in ("$llen", "$litem", "$smem", "$dhas", "$dget", "$olen", "$okey", "$oval"):
+                    if f in old.arr:
+                        st.assume(st.heap.sel(f, o) == old.sel(f, o))
+            st.assume(st.heap.sel("$alloc", o))
+            st.fresh.append([o, st.heap.epoch, set()])
 
     def close_heap(self, st):
         for rec in st.fresh:
